@@ -53,7 +53,7 @@ var propertyCanaries = map[string][]string{
 	"C04": {"STRIDE.contig", "TWIN.bounds", "NILRECV"},
 	"C05": {"OVERLAP.guard", "MODSET.mat", "OVERLAP.symmetric", "TWIN.shadow"},
 	"C06": {"OKFLOW.use", "OKFLOW.cond", "OKFLOW.report", "FACT.normorder", "FACT.state", "NILRECV"},
-	"C07": {"WORKSIZE.querylen", "ARGS.order", "ARGS.lencheck", "ARGS.query", "MAT.order", "ASM.window", "ASM.tail", "STRIDE.len"},
+	"C07": {"ARGS.arms", "ARGS.strict", "WORKSIZE.querylen", "ARGS.order", "ARGS.lencheck", "ARGS.query", "MAT.order", "ASM.window", "ASM.tail", "STRIDE.len"},
 	"C08": {"PARAMUSE.read", "ASM.window", "ASM.tail", "ASM.units", "STRIDE.extent", "SIB.guards"},
 	"C09": {"GOPROTO.capture", "GOPROTO.lockpair", "GOPROTO.sibling", "POOL.uaf"},
 	"C12": {"GRAPHINV.converse", "GRAPHINV.uid", "GRAPHINV.iter", "TWIN.sibstate"},
@@ -69,6 +69,9 @@ func init() {
 	matS := func() *core.Result { return stride.Run(def, core.Pkgs("./mat")) }
 	wsz := func() *core.Result { return worksize.Run(def, core.Pkgs("./lapack/gonum"), worksizeExempt) }
 	all := []canary{
+		{"ARGS.arms", "blas/gonum/level2float64.go", "(incY < 0 && len(y) <= (1-n)*incY)", "(incY < 0 && len(y) <= (1-n)*incX)", func() *core.Result { return worksize.RunArms(def, core.Pkgs("./blas/gonum")) }},
+		{"ARGS.strict", "blas/gonum/dgemm.go", "len(c) < ldc*(m-1)+n", "len(c) <= ldc*(m-1)+n", func() *core.Result { return worksize.RunArms(def, core.Pkgs("./blas/gonum")) }},
+		{"ARGS.strict", "lapack/gonum/dgetrf.go", "len(a) < (m-1)*lda+n", "len(a) <= (m-1)*lda+n", func() *core.Result { return worksize.RunArms(def, core.Pkgs("./lapack/gonum")) }},
 		{"WORKSIZE.min", "lapack/gonum/dgels.go", "wsize := max(1, mn+max(mn, nrhs)*nb)", "wsize := max(1, mn+mn*nb)", wsz},
 		{"WORKSIZE.querylen", "lapack/gonum/dormqr.go", "case lwork < max(1, nw) && lwork != -1:\n\t\tpanic(badLWork)", "case lwork < max(1, nw) && lwork != -1:\n\t\tpanic(badLWork)\n\tcase len(tau) != k:\n\t\tpanic(badLenTau)", wsz},
 		{"WORKSIZE.min", "lapack/gonum/dsyev.go", "lworkopt := max(1, (nb+2)*n)", "lworkopt := max(1, (nb+1)*n)", wsz},
